@@ -11,6 +11,7 @@
 // behind it: every other history still runs.
 #include "common.hpp"
 #include <algorithm>
+#include <csignal>
 #include <set>
 #include <stdexcept>
 #include <sys/mman.h>
@@ -395,12 +396,16 @@ static void runCase(const J& c, size_t caseNo) {
 
 static volatile size_t* g_progress = nullptr;   // shared with the children: number of cases completed so far
 
-// run cases [from, to) in a child; returns the child's wait status (0 = clean)
-static int runChild(const std::vector<std::string>& lines, size_t from, size_t to, bool unbuffered) {
+// run cases [from, to) in a child; returns the child's wait status (0 = clean).  In unbuffered mode (one isolated
+// history) the child's stderr is captured and the first sanitizer diagnostic is returned in *why.
+static int runChild(const std::vector<std::string>& lines, size_t from, size_t to, bool unbuffered, std::string* why = nullptr) {
     fflush(stdout); fflush(stderr);
+    int fds[2] = {-1, -1};
+    if (unbuffered && pipe(fds) != 0) { perror("pipe"); exit(2); }
     const pid_t pid = fork();
     if (pid < 0) { perror("fork"); exit(2); }
     if (pid == 0) {
+        if (unbuffered) { close(fds[0]); dup2(fds[1], 2); close(fds[1]); }
         g_unbuffered = unbuffered;
         for (size_t k = from; k < to; ++k) {
             alarm(15);                 // per history: an endless traversal of a corrupted structure is a violation, not a hang
@@ -413,6 +418,17 @@ static int runChild(const std::vector<std::string>& lines, size_t from, size_t t
             }
         }
         _exit(0);
+    }
+    if (unbuffered) {
+        close(fds[1]);
+        std::string err; char buf[4096]; ssize_t r;
+        while ((r = read(fds[0], buf, sizeof buf)) > 0) if (err.size() < (1u << 20)) err.append(buf, size_t(r));
+        close(fds[0]);
+        if (why) {
+            size_t at = err.find("ERROR: AddressSanitizer");
+            if (at == std::string::npos) at = err.find("runtime error:");
+            if (at != std::string::npos) { *why = err.substr(at, err.find('\n', at) - at).substr(0, 200); }
+        }
     }
     int st = 0;
     if (waitpid(pid, &st, 0) < 0) { perror("waitpid"); exit(2); }
@@ -433,10 +449,12 @@ int main(int argc, char** argv) {
         if (runChild(lines, k, to, false) == 0) { k = to; continue; }
         const size_t culprit = *g_progress;            // the first case the child did not complete
         if (culprit >= to) { k = to; continue; }
-        const int st = runChild(lines, culprit, culprit + 1, true);
+        std::string why;
+        const int st = runChild(lines, culprit, culprit + 1, true, &why);
         if (st != 0) {
             ++aborted;
-            printf("{\"e\":\"Abort\",\"case\":%zu,\"status\":%d}\n", culprit + 1, WIFSIGNALED(st) ? 1000 + WTERMSIG(st) : WEXITSTATUS(st));
+            if (why.empty()) why = WIFSIGNALED(st) ? (WTERMSIG(st) == SIGALRM ? "time-out (endless loop)" : "killed by signal") : "abnormal exit";
+            printf("{\"e\":\"Abort\",\"case\":%zu,\"status\":%d,\"why\":%s}\n", culprit + 1, WIFSIGNALED(st) ? 1000 + WTERMSIG(st) : WEXITSTATUS(st), jstr(why).c_str());
             fflush(stdout);
         }
         k = culprit + 1;
